@@ -22,7 +22,7 @@ pub static DEF: PropDef = PropDef {
     id: "C03",
     level: "exploration",
     engine: "compaction",
-    rule: "one run = 1..2 real Compactor::run loops (own catalog client with its own 60 s cache, own store handle) on a generated dataset of 4..12 chunks at levels 0..2 over 1..3 hour buckets (rows inside retention), l0_merge_threshold 2..4, tiny target sizes, max_levels 1..4, gc grace 0..300 s, both catalog backends (two compactors only on the object-store backend), 400..1500 virtual seconds; per-run fault profile: fault-free / store request failures+delays / compactor crash+restart at any request / stalls longer than the 300 s lease TTL; every store request is a seeded scheduling point; distinct = distinct decision sequence; non-trivial = completed AND at least one merge was published AND (two compactors interleaved OR a fault/crash/stall fired)",
+    rule: "one run = 1..2 real Compactor::run loops (own catalog client with its own 60 s cache, own store handle) on a generated dataset of 4..12 chunks at levels 0..2 over 1..3 hour buckets (rows inside retention; one dataset in twenty-five is a backlog of 33..40 level-0 chunks in one hour), l0_merge_threshold 2..4, tiny target sizes, max_levels 1..4, gc grace 0..300 s, both catalog backends (two compactors only on the object-store backend), 400..1500 virtual seconds; per-run fault profile: fault-free / store request failures+delays / compactor crash+restart at any request / stalls longer than the 300 s lease TTL; every store request is a seeded scheduling point; distinct = distinct decision sequence; non-trivial = completed AND at least one merge was published AND (two compactors interleaved OR a fault/crash/stall fired)",
     quick_runs: 5000,
     thorough_runs: 30_000,
     run_cap_ms: 60_000,
@@ -128,6 +128,15 @@ fn scen_c03(spec: RunSpec) -> ScenFut {
         let n_chunks = sim::w_range(4, 12) as usize;
         let buckets = sim::w_range(1, 3) as usize;
         let levels: Vec<u32> = (0..n_chunks).map(|_| [0u32, 0, 0, 1, 2][sim::w(5) as usize]).collect();
+        // one dataset in twenty-five: a backlog of 33..40 level-0 chunks in a single hour (one compaction group larger
+        // than any per-job bound one might think of)
+        let (n_chunks, buckets, levels) = if sim::w(25) == 24 {
+            sim::probe("more-than-32-l0-chunks-in-one-hour");
+            let n = sim::w_range(33, 40) as usize;
+            (n, 1usize, vec![0u32; n])
+        } else {
+            (n_chunks, buckets, levels)
+        };
         let base = sim::EPOCH_NS as i64 - 72 * HOUR;
         let base = (base / HOUR) * HOUR;
         let setup_meta: Arc<dyn MetadataClient> = match &local {
